@@ -367,3 +367,30 @@ def write_replay(pid, obj):
     p = os.path.join(d, name)
     open(p, "w").write(body)
     return p
+
+
+def build_cxx_harness(name="gdhxx", source="gdhxx.cpp", sanitize=True):
+    """Compile the C++ binding (bindings/cxx/*.cpp of the working tree) and a
+    C++ harness against the scratch C library."""
+    import glob
+    ar, inc = build_lib((), sanitize)
+    out = os.path.join(scratch(), name + ("_san" if sanitize else "_plain"))
+    if os.path.exists(out):
+        return out
+    cxxdir = os.path.join(REPO, "bindings", "cxx")
+    objd = os.path.join(scratch(), "cxxobj" + ("_san" if sanitize else ""))
+    os.makedirs(objd, exist_ok=True)
+    flags = ["-O1", "-g", "-w", "-std=gnu++14", "-DHAVE_CONFIG_H", "-I", inc, "-I", cxxdir] + (SAN_FLAGS if sanitize else [])
+    srcs = sorted(glob.glob(os.path.join(cxxdir, "*.cpp")))
+
+    def cc(f):
+        o = os.path.join(objd, os.path.basename(f)[:-4] + ".o")
+        p = run(["g++"] + flags + ["-c", f, "-o", o])
+        return (f, p.returncode, p.stderr.decode(errors="replace"), o)
+    with ThreadPoolExecutor(NCPU) as ex:
+        res = list(ex.map(cc, srcs))
+    bad = [r for r in res if r[1] != 0]
+    if bad:
+        raise RuntimeError("C++ binding does not compile: " + bad[0][0] + "\n" + bad[0][2][-3000:])
+    run(["g++"] + flags + [os.path.join(VERIF, "harness", source)] + [r[3] for r in res] + [ar] + LINK_LIBS + ["-o", out], check=True)
+    return out
